@@ -288,7 +288,8 @@ def run_check(args):
                        % (prop, args.tier),
         "trusted_base": ["pyvc VC generator (/verif/pyvc)", "z3 5.1.0", "cvc5 1.0.3", "z3 4.8.12",
                          "CPython ast module", "sidecar contracts in /verif/contracts (specification)"] + trusted,
-        "functions_under_contract": functions,
+        "functions_under_contract": functions + [f_ for f_ in getattr(REG, "static_functions", {}).get(prop, [])
+                                                 if f_ not in functions],
         "dependency_contracts_verified_in_this_run": sorted("%s:%s" % (r["rel"], r["qual"]) for r in results
                                                             if r.get("dependency")),
         "backends": backends,
